@@ -164,11 +164,12 @@ class Ken2(Obligation):
 class Ken3(Obligation):
     uses_derivatives = True
 
-    def __init__(self, geom, quick=True):
+    def __init__(self, geom, quick=True, part='eikonal'):
         self.geom = geom
         self.quick = quick
+        self.part = part        # 'eikonal' (gradient identities) / 'arrival' (first-arrival inequalities): separate budgets
         self.m = H.mod('exactpack.solvers.kenamond.kenamond3')
-        self.id = 'C13.kenamond3.g%d' % geom
+        self.id = 'C13.kenamond3.g%d' % geom if part == 'eikonal' else 'C13.kenamond3.arrival.g%d' % geom
         self.modules = [self.m]
         self.extra_shim = {'ExactSolution': Recorder}
         self.functions = [self.m.Kenamond3.__init__, self.m.Kenamond3._run]
@@ -177,6 +178,12 @@ class Ken3(Obligation):
         self.congruence = True
         self.congruence_budget_s = 20
         self.timeout_thorough_s = 900
+        if part == 'arrival':
+            # the inequalities need MODELS of path conditions full of arccos atoms when they fail: give them time
+            self.timeout_s = 60
+            self.budget_s = 400
+            self.hard_timeout_s = 900
+            self.congruence = False
 
     def build(self, mk):
         xd = tuple(mk('d' + c) for c in COORDS[:self.geom])
@@ -215,6 +222,9 @@ class Ken3(Obligation):
             lod2 = lod2 + d_ * d_
         lop, lod = cx.sqrt(lop2), cx.sqrt(lod2)
         outside = (lop2 > R * R) if cx.symbolic else bool(lop2 > R * R)
+        if self.part == 'arrival':
+            self._arrival(cx, bt, td, D, R, de, ee, dd)
+            return
         if cx.symbolic or lop2 > R * R:
             lbp = cx.sqrt(lop2 - R * R)
             u = R / lop
@@ -237,6 +247,8 @@ class Ken3(Obligation):
             ca = cosa(cx)
             cx.lemma('|grad cos(alpha)|^2 l_op^2 = 1 - cos^2(alpha)', gc2 * lop2, 1 - ca * ca)
         cx.eq('eikonal |grad bt|^2=1/D^2', grad2(cx, f, self.geom) * D * D, 1, tol=1e-4)
+
+    def _arrival(self, cx, bt, td, D, R, de, ee, dd):
         cx.ge('bt>=t_d', bt, td)
         # first arrival: never earlier than the straight-line time, and strictly later when the straight
         # segment detonator->point passes through the inert obstacle
@@ -321,6 +333,7 @@ def obligations(tier):
         for i in range(5):
             obs.append(Ken2(g, at=i))
         obs.append(Ken3(g))
+        obs.append(Ken3(g, part='arrival'))
     obs.append(DSD())
     for o in obs:
         o.tier = tier
